@@ -148,8 +148,9 @@ def random_layer(ctx, ncases):
 
 CORPUS = [
     # minimised from seeded changes: keys that resemble a target but are keys of their own
-    'SELECT i, abs(i - 5) AS d FROM #t ORDER BY abs(i - 3), i',
-    'SELECT i, abs(i - 5) AS d FROM #t ORDER BY abs(i - 5), i DESC',
+    'SELECT i, (i - 5) * (i - 5) AS d FROM #t ORDER BY (i - 3) * (i - 3), i',
+    'SELECT i, i % 3 AS d FROM #t ORDER BY i % 2, i DESC',
+    'SELECT i, i % 3 AS d FROM #t ORDER BY i % 3, i DESC',
     "SELECT s, i + 1 AS x FROM #t ORDER BY i + 2 DESC, s",
     'SELECT s, j FROM #t ORDER BY length(s), i DESC',
     'SELECT s FROM (SELECT s, t, i FROM #t) ORDER BY t DESC, i',
@@ -163,7 +164,10 @@ def corpus_layer(ctx):
     rows = [(5, 1, 'b', 'x'), (3, 2, 'a', 'z'), (8, 3, 'b', 'y'), (1, 4, 'aa', 'z'), (4, 5, 'a', 'x'), (6, 6, 'b', 'x'), (3, 7, 'aa', 'y')]
     table = impl.HTable('t', [('i', int), ('j', int), ('s', str), ('t', str)], rows)
     for text in CORPUS:
-        SqlCase([table], text, name='corpus').check(ctx)
+        case = SqlCase([table], text, name='corpus')
+        case.check(ctx)
+        if not case.run_impl().startswith('OK'):
+            raise RuntimeError('corpus statement is not accepted: %s' % text)
         ctx.count('corpus')
 
 
